@@ -450,6 +450,7 @@ func (cr *checkRun) extraChecks() {
 	if cr.prop == "C20" {
 		cr.formatStructural()
 	}
+	cr.runStandin()
 }
 
 // formatStructural: the structural side conditions that connect the contracts of the formatWriter
@@ -758,6 +759,9 @@ func cmdReplay(args []string) int {
 		return 2
 	}
 	fmt.Printf("obligation: %v\nclause:     %v\nsolver:     %v (%v)\n", rec["obligation"], rec["clause"], rec["solver_status"], rec["solver"])
+	if _, ok := rec["standin_input"]; ok {
+		return replayStandin(rec)
+	}
 	fi, ok := rec["failing_input"]
 	if !ok {
 		fmt.Println("no failing input was recorded (no-failing-input-found); solver output:")
